@@ -85,4 +85,11 @@ theorem decode_encode_masked (m : Msg) (rest : Bytes) (msgLen : Nat) :
     simp only [encodeBytes, encB1, encB2, encAcNumber, m', Nat.mod_mod, h3]
   exact ⟨m', by rw [henc]; exact decode_encodeBytes m' hwf rest msgLen, hwf, rfl, rfl, rfl, rfl⟩
 
+theorem wfSetPointControlBool_iff (c : AcSetPointControl) :
+    wfSetPointControlBool c = true ↔ WFSetPointControl c := by
+  cases c <;> simp [wfSetPointControlBool, WFSetPointControl]
+
+theorem wfBool_iff (m : Msg) : wfBool m = true ↔ WF m := by
+  simp [wfBool, WF, wfSetPointControlBool_iff]
+
 end PyAirtouch.Lemmas.At4X2C
